@@ -12,6 +12,7 @@
 From SV Require Import Lib.Base Gen.Consts Gen.WireFields Model.WireBase Proofs.WireBaseProofs.
 From SV Require Import Model.WireIpv6Opt Proofs.WireIpv6OptProofs.
 From SV Require Import Model.WireIpv6Hbh Proofs.WireIpv6HbhProofs.
+From SV Require Import Model.WireIpv6Routing Proofs.WireIpv6RoutingProofs.
 
 (* ---------------- IPv6 extension-header option (src/wire/ipv6option.rs) ----------------
    Built without proto-rpl: Type::Rpl options are Repr::Unknown. *)
@@ -91,3 +92,33 @@ Theorem C06_v6hbh_push_padn_option_ok : forall r n,
              v6hbh_buffer_len r' = v6hbh_buffer_len r + (n + 2).
 Proof. exact v6hbh_push_padn_option_ok. Qed.
 Print Assumptions C06_v6hbh_push_padn_option_ok.
+
+(* ---------------- Routing header (src/wire/ipv6routing.rs) ----------------
+   The header is the payload of a generic extension header (fields count from the octet after
+   the length octet); Repr = Type2 { segments_left, home_address } | Rpl { segments_left, cmpr_i,
+   cmpr_e, pad, addresses }. *)
+
+Theorem C06_v6rt_emit_no_panic : forall r b,
+  v6rt_wf r = true -> blen b = v6rt_buffer_len r -> v6rt_emit r b <> Panic.
+Proof. exact v6rt_emit_no_panic. Qed.
+Print Assumptions C06_v6rt_emit_no_panic.
+
+Theorem C06_v6rt_emit_ignores_old_bytes : forall r b1 b2,
+  v6rt_wf r = true -> blen b1 = v6rt_buffer_len r -> blen b2 = v6rt_buffer_len r ->
+  v6rt_emit r b1 = v6rt_emit r b2.
+Proof. exact v6rt_emit_ignores_old_bytes. Qed.
+Print Assumptions C06_v6rt_emit_ignores_old_bytes.
+
+Theorem C06_v6rt_roundtrip : forall r b,
+  v6rt_wf r = true -> blen b = v6rt_buffer_len r ->
+  exists bs, v6rt_emit r b = Ok bs /\ blen bs = v6rt_buffer_len r /\ v6rt_parse bs = Ok r.
+Proof. exact v6rt_roundtrip. Qed.
+Print Assumptions C06_v6rt_roundtrip.
+
+Theorem C06_v6rt_reparse : forall bs r,
+  bytes_ok bs = true -> v6rt_parse bs = Ok r ->
+  v6rt_wf r = true /\
+  forall b, blen b = v6rt_buffer_len r ->
+    exists bs', v6rt_emit r b = Ok bs' /\ v6rt_parse bs' = Ok r.
+Proof. exact v6rt_reparse. Qed.
+Print Assumptions C06_v6rt_reparse.
